@@ -286,12 +286,30 @@ selector = quantifier + Keyword("of") + identifier_pattern
 selector.set_parse_action(ConditionSelector.from_parsed)
 
 operand = selector | identifier
+# Operators must be whole words: a plain string would be turned into a Literal by
+# infix_notation and match the beginning of identifiers such as "notepad" or "android".
+_operator_ident_chars = alphanums + "_-"
 condition = infix_notation(
     operand,
     [
-        ("not", 1, opAssoc.RIGHT, ConditionNOT.from_parsed),
-        ("and", 2, opAssoc.LEFT, ConditionAND.from_parsed),
-        ("or", 2, opAssoc.LEFT, ConditionOR.from_parsed),
+        (
+            Keyword("not", ident_chars=_operator_ident_chars),
+            1,
+            opAssoc.RIGHT,
+            ConditionNOT.from_parsed,
+        ),
+        (
+            Keyword("and", ident_chars=_operator_ident_chars),
+            2,
+            opAssoc.LEFT,
+            ConditionAND.from_parsed,
+        ),
+        (
+            Keyword("or", ident_chars=_operator_ident_chars),
+            2,
+            opAssoc.LEFT,
+            ConditionOR.from_parsed,
+        ),
     ],
 )
 
